@@ -233,7 +233,7 @@ package web
 // every continuation token is decoded into its own structure (one per start point, in order); every non-nil continuation
 // is encoded, in order
 //@ unit web.decodeCont
-//@   prop C03
+//@   prop C03 C06
 //@   ghost decodedG slice
 //@   ensures [C03:one-decoded-continuation-per-token] ret1 == nil ==> len(ret0) == len(continuations)
 //@   ensures [C03:every-token-gets-its-own-structure] ret1 == nil ==> (forall a int, b int :: 0 <= a && a < b && b < len(ret0) ==> ret0[a] != ret0[b]) && (forall a int :: 0 <= a && a < len(ret0) ==> ret0[a] != nil)
